@@ -189,7 +189,7 @@ pub fn run(rep: &mut Report, o: &Opts) {
 pub fn run_err(rep: &mut Report, o: &Opts) {
     use clap::error::{ContextKind, ContextValue, ErrorKind};
     let mut rng = Rng::new(o.seed ^ 0x0E44);
-    let cfg = GenCfg { relations: true, defaults: true, subs: false, exotic: false, groups: true, flagsubs: false, settings: true, globals: false };
+    let cfg = GenCfg { relations: true, defaults: true, subs: true, exotic: false, groups: true, flagsubs: false, settings: true, globals: false };
     let n_cmds = if o.thorough() { 6000 } else { 350 };
     let mut reqs: Vec<String> = vec![]; let mut reals: Vec<String> = vec![]; let mut readable: Vec<String> = vec![];
     let mut tried = 0; let mut accepted = 0;
@@ -197,13 +197,16 @@ pub fn run_err(rep: &mut Report, o: &Opts) {
         tried += 1;
         let mut cmd = gen_cmd(&mut rng, &cfg, 0, "prog");
         usage_bias(&mut rng, &mut cmd);
-        cmd.settings.ignore_errors = false;
+        cmd.settings.ignore_errors = false; cmd.settings.infer_subcommands = false;
+        // errors of the ROOT level only: lines that name a subcommand are left out
+        let sub_words: Vec<Vec<u8>> = cmd.subs.iter().flat_map(|s| std::iter::once(s.name.clone()).chain(s.aliases.iter().cloned())).map(|w| w.into_bytes()).chain(std::iter::once(b"help".to_vec())).collect();
         let mut ux = gen_ux(&mut rng, &cmd); ux.hidden_subs.clear();
         for (id, names) in &ux.val_names { if let Some(a) = cmd.args.iter_mut().find(|a| &a.id == id) { a.val_names = names.clone(); } }
         if !real_valid(&cmd) { rep.count("usageerr:invalid_definition(skipped)"); continue; }
         accepted += 1;
         for _ in 0..6 {
             let argv = gen_argv(&mut rng, &cmd, 4);
+            if argv.iter().skip(1).any(|w| sub_words.contains(w)) { rep.count("usageerr:line_names_a_subcommand(skipped)"); continue; }
             let key = format!("usageerr {} ARGV {:?}", cmd.encode(), argv.iter().map(|a| String::from_utf8_lossy(a).to_string()).collect::<Vec<_>>());
             let _guard = RealCall::new(&key);
             let mut envs = vec![];
@@ -247,8 +250,8 @@ pub fn run_err(rep: &mut Report, o: &Opts) {
 pub fn run_conflict(rep: &mut Report, o: &Opts) {
     use clap::error::{ContextKind, ContextValue, ErrorKind};
     let mut rng = Rng::new(o.seed ^ 0x0CF1);
-    let cfg = GenCfg { relations: true, defaults: true, subs: false, exotic: false, groups: true, flagsubs: false, settings: true, globals: false };
-    let n_cmds = if o.thorough() { 6000 } else { 350 };
+    let cfg = GenCfg { relations: true, defaults: true, subs: true, exotic: false, groups: true, flagsubs: false, settings: true, globals: false };
+    let n_cmds = if o.thorough() { 6000 } else { 600 };
     let mut reqs: Vec<String> = vec![]; let mut reals: Vec<String> = vec![]; let mut readable: Vec<String> = vec![];
     let mut tried = 0; let mut accepted = 0;
     while accepted < n_cmds && tried < n_cmds * 30 {
@@ -257,13 +260,15 @@ pub fn run_conflict(rep: &mut Report, o: &Opts) {
         // more conflicts than the parser generator declares
         let ids: Vec<String> = cmd.args.iter().map(|a| a.id.clone()).collect();
         for a in cmd.args.iter_mut() { if rng.chance(1, 3) && ids.len() > 1 { let o2 = rng.pick(&ids).clone(); if o2 != a.id && !a.blacklist.contains(&o2) { a.blacklist.push(o2); } } if rng.chance(1, 6) { a.hide = true; } }
-        cmd.settings.ignore_errors = false;
+        cmd.settings.ignore_errors = false; cmd.settings.infer_subcommands = false;
+        let sub_words: Vec<Vec<u8>> = cmd.subs.iter().flat_map(|s| std::iter::once(s.name.clone()).chain(s.aliases.iter().cloned())).map(|w| w.into_bytes()).chain(std::iter::once(b"help".to_vec())).collect();
         let mut ux = gen_ux(&mut rng, &cmd); ux.hidden_subs.clear();
         for (id, names) in &ux.val_names { if let Some(a) = cmd.args.iter_mut().find(|a| &a.id == id) { a.val_names = names.clone(); } }
         if !real_valid(&cmd) { rep.count("conflicterr:invalid_definition(skipped)"); continue; }
         accepted += 1;
         for _ in 0..8 {
             let argv = gen_argv(&mut rng, &cmd, 5);
+            if argv.iter().skip(1).any(|w| sub_words.contains(w)) { rep.count("conflicterr:line_names_a_subcommand(skipped)"); continue; }
             let key = format!("conflicterr {} ARGV {:?}", cmd.encode(), argv.iter().map(|a| String::from_utf8_lossy(a).to_string()).collect::<Vec<_>>());
             let _guard = RealCall::new(&key);
             let mut envs = vec![];
